@@ -124,6 +124,10 @@ def generate(seed, prop):
         w["manual"] = 0.5
     if prop == "C08" and n_az > 1:
         w["update_member"] = 1.0
+    if prop == "C08" and kind in ("multi", "azimuthal"):
+        w["update_source"] = 0.7
+    if prop == "C12" and kind == "azimuthal" and n_az > 1:
+        w["update_member"] = 0.6
     if prop == "C06":
         w["fdwra"] = 5.0
     if prop == "C12":
@@ -172,6 +176,12 @@ def generate(seed, prop):
                 o["range"] = list(last_range)
             last_range = list(o["range"])
         ops.append(o)
+        if name == "update_member" and rng.random() < 0.5:
+            # biased schedule: the container is then brought to the very range (and kwargs) one member already has
+            o["rtype"] = "tuple"
+            o["kwargs"] = o["kwargs"] if o["kwargs"] is not None else {}
+            ops.append({"op": "update_peaks", "range": list(o["range"]), "rnum": o.get("rnum", "float"), "rtype": "tuple",
+                        "kwargs": copy.deepcopy(o["kwargs"])})
     if prop == "C12" and not any(o["op"] == "write_read" for o in ops):
         ops.append(draw_op(rng, "write_read", f, kind, curves, azimuths, fault_rate))
     if prop == "C20" and not any(o["op"] == "plot" for o in ops):
@@ -212,6 +222,9 @@ def draw_op(rng, name, f, kind, curves, azimuths, fault_rate=0.0):
                           "y0": rng.choice([0.0, 1.2, 2.0, 3.0]), "y1": rng.choice([2.5, 4.0, 50.0])})
         return {"op": name, "boxes": boxes, "range": draw_range(rng, f),
                 "kwargs": rng.choice([None, {}]), "dfn": rng.choice(DISTS), "dmc": rng.choice(DISTS)}
+    if name == "update_source":
+        return {"op": name, "az": rng.randrange(len(curves)), "range": draw_range(rng, f), "kwargs": draw_kwargs(rng),
+                "also": rng.choice(["update", "mask", "second_container"])}
     if name == "update_member":
         return {"op": name, "az": rng.randrange(len(curves)), "range": draw_range(rng, f),
                 "rtype": rng.choice(["tuple", "list"]), "kwargs": draw_kwargs(rng)}
@@ -272,6 +285,7 @@ def build_world(world):
                                             meta={**st.meta0, "processing_method": "traditional"})
     if k in ("azimuthal", "multi"):
         hs = [H.HvsrTraditional(st.f, a) for a in st.amps]
+        st.src_members = hs            # the caller keeps the objects it built the container from
         st.objs["az"] = H.HvsrAzimuthal(hs, st.azimuths,
                                         meta={**st.meta0, "processing_method": "azimuthal"})
     if k in ("diffuse", "multi"):
@@ -447,6 +461,8 @@ def apply_op(ctx, st, op, prop):
     name = op["op"]
     info = {"exc": None}
     st.member_same = set()
+    if name == "write_read":
+        st.member_before_write = dict(st.member)
     if name in ("update_peaks", "fdwra", "manual", "write_read"):
         # the container fans the range out to every member again; a member that already holds this
         # very range (set on its own earlier) may legitimately short-circuit
@@ -547,6 +563,20 @@ def apply_op(ctx, st, op, prop):
         st.cur_range = tuple(op["range"])
         st.cur_kwargs = {} if op["kwargs"] is None else copy.deepcopy(op["kwargs"])
         ctx.state_changes += 1
+    elif name == "update_source":
+        # the caller goes on using the objects the container was built from: the container is not affected
+        src = getattr(st, "src_members", None)
+        if src and op["az"] < len(src):
+            h = src[op["az"]]
+            if op["also"] == "mask":
+                h.valid_window_boolean_mask[:] = False
+                h.valid_peak_boolean_mask[:] = False
+            elif op["also"] == "second_container":
+                H.HvsrAzimuthal([h], [10.0])
+            else:
+                h.update_peaks_bounded(search_range_in_hz=tuple(op["range"]), find_peaks_kwargs=copy.deepcopy(op["kwargs"]))
+            ctx.probe("source_member_used_again")
+        st.range_changed = False
     elif name == "update_member":
         if "az" in st.objs and op["az"] < len(st.objs["az"].hvsrs):
             r = tuple(op["range"]) if op["rtype"] == "tuple" else list(op["range"])
@@ -858,6 +888,23 @@ def oracle_c05(ctx, st, op, info):
     Pe = P & has_peak                      # accepted windows that do have a peak
     if (P & ~has_peak).any():
         ctx.probe("peakless_window_flagged_valid")
+    if W.sum() >= 2 and Pe.sum() < 2:
+        # the curve statistics do not need any peak: judge them alone (e.g. no curve has a peak in the range)
+        got = _accessors_trad(o)
+        rows = amp[W]
+        with np.errstate(all="ignore"):
+            for d in DISTS:
+                exp = {f"mean_curve({d})": ST.mean(rows, d, axis=0), f"std_curve({d})": ST.std(rows, d, axis=0)}
+                for n in (1.0, -1.0, 2.5):
+                    exp[f"nth_std_curve({n},{d})"] = ST.nth(n, d, exp[f"mean_curve({d})"], exp[f"std_curve({d})"])
+                for name, e in exp.items():
+                    g = got[name]
+                    ctx.check(stat_same(name, g, e, np.zeros(0), np.zeros(0), rows), "estimator_mismatch",
+                              lambda: f"{name} = {g!r} but the textbook estimator over the accepted windows "
+                                      f"{np.nonzero(W)[0].tolist()} (fewer than two of them have a peak) gives {e!r}",
+                              key={"after": op["op"], "stat": name.split("(")[0]})
+        ctx.probe("c05_curves_only_judged")
+        return
     if W.sum() < 2 or Pe.sum() < 2:
         ctx.probe("c05_out_of_domain")
         return
